@@ -1,7 +1,8 @@
 /-
 Model of `polyply/src/topology.py`: `Topology.preprocess()` =
-`gen_pairs`, `replace_defines`, `gen_bonded_interactions`, `convert_nonbond_to_sig_eps`
-and of `match_dihedral_interaction_types` / `_wildcard_dih`.  Core Lean only.
+`gen_pairs`, `replace_defines`, `gen_bonded_interactions`, `convert_nonbond_to_sig_eps`,
+of `lorentz_berthelot_rule` / `geometric_rule` and of `match_dihedral_interaction_types` / `_wildcard_dih`.
+Core Lean only.
 
 Mirrors the code that exists:
 * the dihedral wildcard search is driven by the TRANSLATED `patterns` list (`Tables.Top.patterns`) and
@@ -15,14 +16,26 @@ Mirrors the code that exists:
   macro without a value (`#define FLAG`, stored as `True`) used as a parameter makes the real code fail
   (`for new_param in True` -> TypeError): modelled as an error;
 * `gen_pairs`: explicit `nonbond_params` win, pairs are generated only for `gen-pairs == "yes"`, self
-  terms come from the atom types.  The combination-rule FORMULAS are not part of the property: a
-  generated entry is recorded by its provenance only (`Src.generated`);
-* `convert_nonbond_to_sig_eps` runs iff `comb-rule == 1`; sixth roots are not rational, so the model
-  records the flag and the specification side checks `4 eps sig^6 = C6`, `4 eps sig^12 = C12`.
+  terms come from the atom types.  Two layers: `genPairs` records a generated entry by its provenance only
+  (`Src.generated`; the combination-rule FORMULAS are not part of the property), `genPairsV` carries the values:
+  `lorentz_berthelot_rule` / `geometric_rule` as code (`lorentzBerthelot`, `geometric`; arithmetic mean exact,
+  square roots as the specification `Val.root 2 (a*b)`), selected through the TRANSLATED `comb_funcs` table by
+  function name (`combFnFor`), called as `comb_rule(nb1_A, nb1_B, nb2_A, nb2_B)` (`combValues`);
+  `genPairsV` erases to `genPairs` (`Proofs`: `genPairsV_erase`);
+* `convert_nonbond_to_sig_eps` runs iff `comb-rule == 1` (translated number): `convertEntry` is the loop body on
+  rationals (epsilon exact, sigma the specification `Val.root 6 (nb2/nb1)`, `ZeroDivisionError` when exactly one
+  operand is zero, a complex sigma for a negative ratio), `convertVals` extends it to the Lorentz-Berthelot shape
+  `(m, sqrt p)`, `convertTable` is the loop, `preprocessV` the whole of `preprocess` with the numbers;
+* literals read from the CURRENT source (`Generated/C09Preprocess.lean`, provider `harness/tables/c09_preprocess.py`):
+  the type-less section list (`untyped`), the OPLS macro names (`oplsOf`), the haystack of the substring test
+  `inter_type in "dihedrals"` (`dihLike`), `"yes"` (`genPairsFlag`), the token count of a parameterless interaction
+  (`paramlessLen`) and the rule number that triggers the conversion (`convertsRule`).
 
 Not modelled (assumption recorded by the harness): atom keys of a block are `0..n-1` in order
 (GROMACS requires consecutive numbering), so `Block.to_molecule` does not renumber.
 -/
+import PolyplyVerif.Generated.C09Preprocess
+
 namespace PolyplyVerif.Preprocess
 
 abbrev Key := List String
@@ -63,6 +76,17 @@ def tryPattern (t : TypeTable) (atoms : Key) (pat : List (Option Nat)) : Option 
 def matchDihedral (pats : List (List (Option Nat))) (atoms : Key) (t : TypeTable) : Option Key :=
   pats.findSome? (tryPattern t atoms)
 
+/-- `s in t` for Python strings: `s` occurs in `t` as a contiguous substring -/
+def infixOf (s : List Char) : List Char → Bool
+  | [] => s.isEmpty
+  | c :: rest => s.isPrefixOf (c :: rest) || infixOf s rest
+
+/-- `inter_type in "dihedrals"` — the code writes `in` on a STRING, i.e. a substring test: the section name
+`dihedrals` passes, and so would `dihedral`, `hed` or the empty name.  The haystack is the TRANSLATED literal.
+(None of the other section names the topology reader accepts is a substring of it — `C09_literals` — so through
+the reader only `dihedrals` takes the wildcard route; a hand-built block with a section called `dihedral` does.) -/
+def dihLike (interType : String) : Bool := infixOf interType.toList Tables.C09Preprocess.dihedralHaystack.toList
+
 /-- the lookup of `gen_bonded_interactions`: exact, reversed, then (dihedrals) wildcard search -/
 def lookupType (pats : List (List (Option Nat))) (interType : String) (atoms : Key) (t : TypeTable) :
     Option (List TypeEntry) :=
@@ -72,7 +96,7 @@ def lookupType (pats : List (List (Option Nat))) (interType : String) (atoms : K
     match tlookup t atoms.reverse with
     | some e => some e
     | none =>
-      if interType == "dihedrals" then
+      if dihLike interType then
         match matchDihedral pats atoms t with
         | some k => tlookup t k
         | none => none
@@ -159,8 +183,20 @@ deriving Repr, DecidableEq, Inhabited
 
 def atLookup (ats : List AtomType) (nm : String) : Option AtomType := ats.find? (fun a => a.name == nm)
 
-def untyped : List String :=
-  ["pairs", "exclusions", "virtual_sitesn", "virtual_sites2", "virtual_sites3", "virtual_sites4"]
+/-- `if inter_type in [...]: continue` — the TRANSLATED list of sections without bonded types -/
+def untyped : List String := Tables.C09Preprocess.untyped
+
+/-- `len(interaction.parameters) == 1`: the TRANSLATED token count of an interaction written without parameters -/
+def paramlessLen : Nat := Tables.C09Preprocess.paramlessLen
+
+/-- `"_FF_OPLS" in self.defines or "_FF_OPLS_AA" in self.defines` with the TRANSLATED macro names -/
+def oplsOf (d : Defines) : Bool := Tables.C09Preprocess.oplsDefines.any fun nm => (dlookup d nm).isSome
+
+/-- `self.defaults["gen-pairs"] == "yes"` with the TRANSLATED keyword (`none`: the reader's default "no") -/
+def genPairsFlag (v : Option String) : Bool := v == some Tables.C09Preprocess.genPairsYes
+
+/-- `self.defaults['comb-rule'] == 1` with the TRANSLATED rule number -/
+def convertsRule (rule : Rat) : Bool := rule == (Tables.C09Preprocess.convertCombRule : Rat)
 
 /-- the key looked up for an interaction: atom types of its atoms, or (OPLS) their bond types -/
 def ixnKey (opls : Bool) (ats : List AtomType) (b : Block) (i : Ixn) : Option Key :=
@@ -180,7 +216,7 @@ def extraTerms (i : Ixn) (es : List TypeEntry) : List Ixn :=
 /-- one interaction of `gen_bonded_interactions`: `(updated interaction, additional interactions)` -/
 def resolveIxn (pats : List (List (Option Nat))) (opls : Bool) (ats : List AtomType) (b : Block)
     (interType : String) (t : TypeTable) (i : Ixn) : Except String (Ixn × List Ixn) :=
-  if i.params.length == 1 then
+  if i.params.length == paramlessLen then
     match ixnKey opls ats b i with
     | none => .error "unknown-atom-or-type"
     | some key =>
@@ -310,12 +346,178 @@ def preprocess (pats : List (List (Option Nat))) (combFuncs : List (Nat × Strin
     match mapBlocksM (replaceDefinesBlock tp.defines) tp.blocks with
     | .error e => .error e
     | .ok blocks =>
-      let opls := (dlookup tp.defines "_FF_OPLS").isSome || (dlookup tp.defines "_FF_OPLS_AA").isSome
+      let opls := oplsOf tp.defines
       match mapBlocksM (fun b => (resolveBlock pats opls tp.atomTypes tp.types b).map fun s => (b.name, s)) blocks with
       | .error e => .error e
       | .ok resolved =>
         let inst := tp.molecules.filterMap fun nm => (resolved.find? (fun e => e.1 == nm)).map fun e => (nm, e.2)
-        .ok { instances := inst, nonbond := nb, converted := rule == 1 }
+        .ok { instances := inst, nonbond := nb, converted := convertsRule rule }
+
+/-! ### numbers of the non-bonded table: combination rules and the sigma/epsilon conversion -/
+
+/-- A value of `nonbond_params` as the model knows it: an exact rational; the non-negative real `x` with
+`x ^ deg = rad` (the square roots of the combination rules, the sixth root of the conversion — these are
+specifications, not computed); or a non-real complex number (what Python's float power returns for a
+negative base; not modelled further).  Floats are treated as the rationals they denote; overflow and
+rounding are outside the model (the harness compares exactly where float arithmetic is exact, else 1e-9). -/
+inductive Val where
+  | exact (q : Rat)
+  | root (deg : Nat) (rad : Rat)
+  | complex
+deriving Repr, DecidableEq, Inhabited
+
+/-- `x ** (1/deg)` for the float `x = rad` -/
+def rootVal (deg : Nat) (rad : Rat) : Val := if rad < 0 then .complex else .root deg rad
+
+/-- `lorentz_berthelot_rule(sig_A, sig_B, eps_A, eps_B)`: `((sig_A + sig_B)/2.0, (eps_A * eps_B)**0.5)` -/
+def lorentzBerthelot (sigA sigB epsA epsB : Rat) : Val × Val :=
+  (.exact ((sigA + sigB) / 2), rootVal 2 (epsA * epsB))
+
+/-- `geometric_rule(C6_A, C6_B, C12_A, C12_B)`: `((C6_A * C6_B)**0.5, (C12_A * C12_B)**0.5)` -/
+def geometric (c6A c6B c12A c12B : Rat) : Val × Val :=
+  (rootVal 2 (c6A * c6B), rootVal 2 (c12A * c12B))
+
+/-- the combination-rule functions of topology.py the model knows -/
+inductive CombFn where
+  | lorentzBerthelot
+  | geometric
+deriving Repr, DecidableEq, Inhabited
+
+def combFnByName (nm : String) : Option CombFn :=
+  if nm == "lorentz_berthelot_rule" then some .lorentzBerthelot
+  else if nm == "geometric_rule" then some .geometric
+  else none
+
+def CombFn.apply : CombFn → Rat → Rat → Rat → Rat → Val × Val
+  | .lorentzBerthelot => Preprocess.lorentzBerthelot
+  | .geometric => Preprocess.geometric
+
+/-- `comb_rule = comb_funcs[self.defaults["comb-rule"]]` with the TRANSLATED dict `comb_funcs`
+(rule number -> function name; keys of a dict literal: the table theorem states they are distinct) -/
+def combFnFor (combFuncs : List (Nat × String)) (rule : Rat) : Except String CombFn :=
+  match combFuncs.find? (fun e => (e.1 : Rat) == rule) with
+  | none => .error "unknown-comb-rule"
+  | some e =>
+    match combFnByName e.2 with
+    | some f => .ok f
+    | none => .error "unmodelled-comb-function"
+
+/-- `comb_rule(nb1_A, nb1_B, nb2_A, nb2_B)`: the two `nb1` go to the first two parameters
+(`sig_A, sig_B` / `C6_A, C6_B`), the two `nb2` to the last two -/
+def combValues (f : CombFn) (a b : AtomType) : Val × Val := f.apply a.nb1 b.nb1 a.nb2 b.nb2
+
+/-- an entry of `nonbond_params` with its values -/
+structure NbV where
+  a : String
+  b : String
+  src : Src
+  nb1 : Val
+  nb2 : Val
+deriving Repr, DecidableEq, Inhabited
+
+/-- forget the generated values: the provenance-only entry of `genPairs` -/
+def NbV.erase (e : NbV) : NbEntry :=
+  ⟨e.a, e.b, e.src,
+   match e.src with
+   | .generated => none
+   | _ => match e.nb1, e.nb2 with
+     | .exact x, .exact y => some (x, y)
+     | _, _ => none⟩
+
+/-- an entry read from `[ nonbond_params ]` (always carries its two numbers) -/
+def NbV.ofEntry? (e : NbEntry) : Option NbV := e.vals.map fun v => ⟨e.a, e.b, e.src, .exact v.1, .exact v.2⟩
+
+def nbLookupV (t : List NbV) (a b : String) : Option NbV := t.find? (fun e => samePair e.a e.b a b)
+
+def addIfAbsentV (acc : List NbV) (e : NbV) : List NbV :=
+  if (nbLookupV acc e.a e.b).isSome then acc else acc ++ [e]
+
+/-- `itertools.combinations(xs, 2)` -/
+def combs2 {α : Type} : List α → List (α × α)
+  | [] => []
+  | x :: rest => rest.map (fun y => (x, y)) ++ combs2 rest
+
+/-- the `gen-pairs == "yes"` loop with values: `nb1, nb2 = comb_rule(nb1_A, nb1_B, nb2_A, nb2_B)` -/
+def genCrossV (f : CombFn) (t : List NbV) (ats : List AtomType) : List NbV :=
+  ((combs2 ats).map fun p =>
+    (⟨p.1.name, p.2.name, .generated, (combValues f p.1 p.2).1, (combValues f p.1 p.2).2⟩ : NbV)).foldl addIfAbsentV t
+
+/-- the self-term loop with values -/
+def genSelfV (t : List NbV) (ats : List AtomType) : List NbV :=
+  (ats.map fun a => (⟨a.name, a.name, .self, .exact a.nb1, .exact a.nb2⟩ : NbV)).foldl addIfAbsentV t
+
+/-- `Topology.gen_pairs` with values -/
+def genPairsV (f : CombFn) (genPairsYes : Bool) (ats : List AtomType) (explicit : List NbV) : List NbV :=
+  let t := if genPairsYes then genCrossV f explicit ats else explicit
+  genSelfV t ats
+
+/-- one pass of the loop body of `convert_nonbond_to_sig_eps` on rational `nb1`, `nb2`:
+
+    if nb2 != 0: sig = (nb2/nb1)**(1.0/6.0)   else: sig = 0
+    if nb1 != 0: eps = nb1**2.0/(4*nb2)       else: eps = 0
+
+(each guard tests the OTHER operand of the division, so exactly one of the two being zero divides by zero:
+Python floats raise `ZeroDivisionError`).  sigma is returned as a specification (`Val.root 6 (nb2/nb1)`),
+epsilon exactly. -/
+def convertEntry (nb1 nb2 : Rat) : Except String (Val × Rat) :=
+  let sigE : Except String Val :=
+    if nb2 != 0 then (if nb1 == 0 then .error "ZeroDivisionError" else .ok (rootVal 6 (nb2 / nb1)))
+    else .ok (.exact 0)
+  match sigE with
+  | .error e => .error e
+  | .ok sig =>
+    if nb1 != 0 then (if 4 * nb2 == 0 then .error "ZeroDivisionError" else .ok (sig, nb1 ^ 2 / (4 * nb2)))
+    else .ok (sig, 0)
+
+/-- the loop body on the values `gen_pairs` can leave behind: two rationals (explicit, self), or the
+Lorentz-Berthelot pair `(m, sqrt p)`: then `sig = (sqrt p / m)**(1/6)` is the 12th root of `p/m^2` and
+`eps = m^2/(4 sqrt p)` the square root of `m^4/(16 p)`.  Other shapes (geometric values are only produced
+under rules that are not converted; complex inputs) are not modelled. -/
+def convertVals : Val → Val → Except String (Val × Val)
+  | .exact nb1, .exact nb2 => (convertEntry nb1 nb2).map fun r => (r.1, .exact r.2)
+  | .exact m, .root 2 p =>
+    if p < 0 then .error "unmodelled-value-shape"
+    else if p == 0 then (if m != 0 then .error "ZeroDivisionError" else .ok (.exact 0, .exact 0))
+    else if m == 0 then .error "ZeroDivisionError"
+    else .ok (if m < 0 then .complex else .root 12 (p / m ^ 2), .root 2 (m ^ 4 / (16 * p)))
+  | _, _ => .error "unmodelled-value-shape"
+
+/-- `convert_nonbond_to_sig_eps`: every entry in dict order, the first exception ends it -/
+def convertTable : List NbV → Except String (List NbV)
+  | [] => .ok []
+  | e :: rest =>
+    match convertVals e.nb1 e.nb2 with
+    | .error err => .error err
+    | .ok (s, ep) => (convertTable rest).map ({ e with nb1 := s, nb2 := ep } :: ·)
+
+structure ResultV where
+  base : Result
+  /-- `nonbond_params` after `gen_pairs`, with values -/
+  pairs : List NbV
+  /-- `nonbond_params` when `preprocess` returns (converted iff `comb-rule == 1`) -/
+  final : List NbV
+deriving Repr, Inhabited
+
+/-- `Topology.preprocess` including the numbers of the non-bonded table.  Every failure of `preprocess`
+(no defaults, unknown rule, macro, missing type) precedes the conversion in the code as well: the
+conversion is the last statement. -/
+def preprocessV (pats : List (List (Option Nat))) (combFuncs : List (Nat × String)) (tp : Topo) :
+    Except String ResultV :=
+  match preprocess pats combFuncs tp with
+  | .error e => .error e
+  | .ok r =>
+    match tp.combRule with
+    | none => .error "no-defaults"
+    | some rule =>
+      match combFnFor combFuncs rule with
+      | .error e => .error e
+      | .ok f =>
+        let nbv := genPairsV f tp.genPairsYes tp.atomTypes (tp.nonbond.filterMap NbV.ofEntry?)
+        if r.converted then
+          match convertTable nbv with
+          | .error e => .error e
+          | .ok c => .ok ⟨r, nbv, c⟩
+        else .ok ⟨r, nbv, nbv⟩
 
 /-! ### Specification side (what the property states) -/
 
